@@ -144,7 +144,7 @@ def listEntry : Name × Bytes → String
   | (.final k, b) => "F:" ++ toString k.path ++ ":" ++ vtokOf k.validator ++ ":" ++ labelStr k.coding ++ ":" ++
       toyDecode k.coding b
   | (.tmp k pid, b) => "T:" ++ toString k.path ++ ":" ++ vtokOf k.validator ++ ":" ++ labelStr k.coding ++ ":" ++
-      toString pid ++ ":" ++ toString b.length
+      toString pid ++ ":" ++ (if b.length < 24 then "part:" ++ toString b.length else "full:" ++ toyDecode k.coding b)
 
 def cacheLine (toks : List String) : String :=
   match toks.mapM parseOp with
@@ -168,6 +168,14 @@ def deflateLine : List String → String
     | _, _ => "bad-op"
   | ["rs", al, mi, mn, mx, cd, me, ae, inm, st, fl, ct, et, va, cc, bk, _gen, ln] =>
     Dfl.rsLine al mi mn mx cd me ae inm st fl ct et va cc bk ln
+  | ["name", d, pa, e, pid] =>
+    match ofHex d, ofHex pa, ofHex e, pid.toNat? with
+    | some dir, some path, some etag, some p =>
+      if etag.length < 2 then "bad-op"
+      else
+        let fn := cacheFileName dir path etag
+        toHex fn ++ " " ++ toHex (tmpFileName fn p)
+    | _, _, _, _ => "bad-op"
   | "cache" :: ops => Dfl.cacheLine ops
   | _ => "bad-op"
 
